@@ -12,6 +12,22 @@ def outText : Outcome → String
 def run (t : List String) : String :=
   match t with
   | ["exhaust", _, m] => outText (reconnect (nat! m) []).1
+  | ["displaced", m] =>
+    -- every registration is refused, every reconnection itself succeeds: budget + 1 sessions decide
+    let outs := replierLife replierBudgetPerOutage replierRefusalCountsAsAttempt (nat! m) (nat! m)
+      (List.replicate (nat! m + 1) { refused := true, attempts := [Attempt.ok] })
+    (match outs.find? (· != .reconnected) with | some o => outText o | none => "hang")
+  | ["takeover", m] =>
+    -- a few refusals (fewer than the budget), then the slot is free
+    let outs := replierLife replierBudgetPerOutage replierRefusalCountsAsAttempt (nat! m) (nat! m)
+      (List.replicate (min 8 (nat! m)) { refused := true, attempts := [Attempt.ok] })
+    (match outs.find? (· != .reconnected) with | some o => "second-gave-up:" ++ outText o | none => "ok")
+  | ["quiet", n, m] =>
+    -- nothing happens between the outages: each still gets its own budget
+    let outs := life pubsubBudgetPerOutage (nat! m) (nat! m) (List.replicate (nat! n) [Attempt.ok])
+    match outs.find? (· != .reconnected) with
+    | some o => outText o
+    | none => "ok"
   | [kind, n, m] =>
     let per := if kind = "replier" then replierBudgetPerOutage
       else if kind = "requestor" then requestorBudgetPerOutage && requestorRestartsReader
